@@ -1,5 +1,6 @@
 import Zc.Proofs.History
 import Zc.Proofs.Packetize
+import Zc.Proofs.Transmit
 /-! # C03 — the responder answers exactly what is registered, minus what the querier knows
 
 Model: `Zc.Registry` (`_services/registry.py`, with the D3 repair), `Zc.Svc` (the record builders and memo
@@ -124,9 +125,9 @@ theorem C03_answers_sound {d : DictRS} {reg' : Registry} (h : respond lower ettl
 /-- Completeness: every record of a registered service that answers a question is offered (up to record
 identity) unless the querier lists it with more than half of its TTL; when the responder stays silent nothing
 was owed. -/
-theorem C03_answers_complete {o : Option DictRS} {reg' : Registry} (h : respond lower ettl reg msgs = .ok (o, reg')) :
-    RespSpec.complete lower ettl reg.services (questionsOf msgs) (knownOf msgs) ((o.getD []).map (·.1)) = true := by
-  unfold RespSpec.complete
+theorem C03_answers_complete_per_service {o : Option DictRS} {reg' : Registry} (h : respond lower ettl reg msgs = .ok (o, reg')) :
+    RespSpec.completePerService lower ettl reg.services (questionsOf msgs) (knownOf msgs) ((o.getD []).map (·.1)) = true := by
+  unfold RespSpec.completePerService
   simp only [List.all_eq_true]
   intro q hq s hs r hr
   cases hn : RespSpec.isNsec r <;> cases hsa : RespSpec.supAny lower (knownOf msgs) r <;>
@@ -151,6 +152,12 @@ theorem C03_answers_complete {o : Option DictRS} {reg' : Registry} (h : respond 
       obtain ⟨a, ha, hb⟩ := answerMap_complete lower ettl hi hm msgs hq hs hr hk
       rw [List.any_eq_true]
       exact ⟨a, by simpa [keysOf] using ha, hb⟩
+
+/-- Completeness as the property words it (`RespSpec.complete`, the predicate stage O evaluates): an NSEC is owed only when
+no registered service of the asked host has the asked address type; everything else as above. -/
+theorem C03_answers_complete {o : Option DictRS} {reg' : Registry} (h : respond lower ettl reg msgs = .ok (o, reg')) :
+    RespSpec.complete lower ettl reg.services (questionsOf msgs) (knownOf msgs) ((o.getD []).map (·.1)) = true :=
+  RespSpec.complete_of_perService lower ettl _ _ _ _ (C03_answers_complete_per_service lower ettl hi hm msgs h)
 
 /-- Additionals: the additional records attached to an answer are only SRV, TXT, address and NSEC records of
 one registered service that owns the answer. -/
@@ -246,7 +253,7 @@ theorem C03_history (ops : List RegOp) (msgs : List Msg) (hclean : dirty lower o
     ∃ o reg', respond lower ettl (Registry.run lower ettl ops) msgs = .ok (o, reg')
       ∧ (∀ a ∈ (o.getD []).map (·.1),
             RespSpec.soundAnswer lower ettl (RegSpec.run lower ops) (questionsOf msgs) (knownOf msgs) a = true)
-      ∧ RespSpec.complete lower ettl (RegSpec.run lower ops) (questionsOf msgs) (knownOf msgs) ((o.getD []).map (·.1)) = true
+      ∧ RespSpec.completePerService lower ettl (RegSpec.run lower ops) (questionsOf msgs) (knownOf msgs) ((o.getD []).map (·.1)) = true
       ∧ (∀ p ∈ o.getD [], RespSpec.additionalsOk lower ettl (RegSpec.run lower ops) p = true) := by
   have h := run_spec lower ettl ops
   have hm : AllFresh lower (Registry.run lower ettl ops) := fun s hs => h.fresh s hs (by rw [hclean]; simp)
@@ -258,7 +265,7 @@ theorem C03_history (ops : List RegOp) (msgs : List Msg) (hclean : dirty lower o
     cases o with
     | none => simp at ha
     | some d => rw [p1]; exact C03_answers_sound lower ettl h.inv hm msgs hr a ha
-  · rw [p2]; exact C03_answers_complete lower ettl h.inv hm msgs hr
+  · rw [p2]; exact C03_answers_complete_per_service lower ettl h.inv hm msgs hr
   · intro p hp
     cases o with
     | none => simp at hp
@@ -316,5 +323,91 @@ example :
            answers := [⟨"y._b._tcp.local.", 16, 1, true, 2251, 0, .txt []⟩] }] with
      | .ok (some d, _) => d.map (fun p => (p.1.type, p.2.length))
      | _ => []) = [(12, 4), (1, 1), (47, 0)] := by decide
+
+/-! the interesting ways to reach `dirty = []`: write + `update`, and `unregister` -/
+
+def qSrvX : List Msg := [{ isProbe := false, questions := [⟨"x._a._tcp.local.", 33, 1, false⟩], answers := [] }]
+
+def srvPorts (r : Except PyExc (Option DictRS × Registry)) : List Nat :=
+  match r with
+  | .ok (some d, _) => d.map (fun p => match p.1.rdata with | .srv _ _ port _ => port | _ => 0)
+  | _ => []
+
+/-- register, query (fills the SRV memo with port 80), write `port = 81`: inside the dirty window the stale memo answers … -/
+example : dirty id [.register exX, .query qSrvX, .mutate "x._a._tcp.local." (.port 81)] = ["x._a._tcp.local."]
+    ∧ srvPorts (respond id 4500 (Registry.run id 4500 [.register exX, .query qSrvX, .mutate "x._a._tcp.local." (.port 81)]) qSrvX) = [80] := by
+  decide
+
+/-- … and after `async_update` the history is clean again (`C03_history` applies) and the reply carries port 81 -/
+example : dirty id [.register exX, .query qSrvX, .mutate "x._a._tcp.local." (.port 81), .update { exX with port := 81 }] = []
+    ∧ srvPorts (respond id 4500 (Registry.run id 4500
+        [.register exX, .query qSrvX, .mutate "x._a._tcp.local." (.port 81), .update { exX with port := 81 }]) qSrvX) = [81] := by
+  decide
+
+/-- after `unregister` the same question gets no reply at all -/
+example : (match respond id 4500 (Registry.run id 4500 [.register exX, .query qSrvX, .unregister ["x._a._tcp.local."]]) qSrvX with
+           | .ok (none, _) => true
+           | _ => false) = true := by decide
+
+/-! ## the last clause at the wire: replies transmitted after an update (finding D20)
+
+`C03_history` speaks about the value `async_response` returns.  Most multicast replies are not sent at once but queued
+(`Zc.RHost.pending`); `async_update_service` does not revise the queues, so a reply computed before an update can leave
+after it.  Full-strength statement, its refutation on today's code, and the part that holds. -/
+
+/-- **full strength (false today — D20)**: in every history of API calls, queries and queue flushes (attribute writes
+expressed as `update`), every datagram consists of records of services registered when it is sent -/
+def C03_transmitted_current : Prop :=
+  ∀ ops : List HostOp, (∀ op ∈ ops, ∀ k m, op ≠ .api (.mutate k m)) →
+    ∀ o ∈ (RHost.run lower ettl ops).2, Sent.current lower ettl o = true
+
+def qTxtSrvX : List Msg :=
+  [{ isProbe := false, questions := [⟨"x._a._tcp.local.", 16, 1, false⟩, ⟨"x._a._tcp.local.", 33, 1, false⟩], answers := [] }]
+
+/-- D20's witness: register, a TXT+SRV query whose reply is queued, update to port 81, then the queue fires -/
+def d20Pre : List HostOp := [.api (.register exX), .api (.query qTxtSrvX), .api (.update { exX with port := 81 })]
+def d20Ops : List HostOp := d20Pre ++ [.transmit]
+
+/-- the datagram sent after the update still carries SRV port 80, which no registered service owns -/
+theorem C03_transmitted_current_refuted : ¬ C03_transmitted_current id 4500 := by
+  intro h
+  have h1 := h d20Ops (by intro op hop k m e; subst e; simp [d20Ops, d20Pre] at hop)
+  -- the state when the queue fires: one pending map with the old SRV as a key; the registry has port 81
+  have hpend : (RHost.runFrom id 4500 {} d20Pre).1.pending.any
+      (fun d => !d.isEmpty && (d.map (·.1)).contains (RespSpec.srvOf exX)) = true := by decide
+  have hown : ((RHost.runFrom id 4500 {} d20Pre).1.reg.services.map Svc.clearMemo).any
+      (fun s => (RespSpec.own id 4500 s).contains (RespSpec.srvOf exX)) = false := by decide
+  rw [List.any_eq_true] at hpend
+  obtain ⟨d, hd, hprops⟩ := hpend
+  rw [Bool.and_eq_true] at hprops
+  have ho : ((RHost.runFrom id 4500 {} d20Pre).1.reg.services.map Svc.clearMemo, packetize id d) ∈ (RHost.run id 4500 d20Ops).2 := by
+    simp only [RHost.run, d20Ops, RHost.runFrom_append, RHost.runFrom, RHost.step, List.append_nil, List.mem_append, List.mem_map,
+      List.mem_filter]
+    exact Or.inr ⟨d, ⟨hd, hprops.1⟩, rfl⟩
+  have hcur := h1 _ ho
+  unfold Sent.current at hcur
+  rw [List.all_eq_true] at hcur
+  have hmem : RespSpec.srvOf exX ∈ (packetize id d).1 :=
+    (packetize_answers id d).mem_iff.mpr (by simpa [keysOf] using List.contains_iff_mem.mp hprops.2)
+  have := hcur _ (List.mem_append.mpr (Or.inl hmem))
+  rw [hown] at this
+  exact Bool.false_ne_true this
+
+/-- **the part that holds**: if at every `update` / `unregister` no pending reply holds a record that only the changed
+service owns (`noReplyQueuedForChanged` — the negation of D20's signature; for `unregister` the D5 repair purges such
+records, which is C08's theorem), then every datagram ever sent consists of records of services registered at that
+instant. -/
+theorem C03_transmitted_current_partial (ops : List HostOp) (hq : noReplyQueuedForChanged lower ettl {} ops = true) :
+    ∀ o ∈ (RHost.run lower ettl ops).2, Sent.current lower ettl o = true :=
+  runFrom_spec lower ettl ops (PendInv.init lower ettl) hq
+
+/-- non-vacuity of the hypothesis: the same exchange with the queue flushed before the update satisfies it and sends two
+datagrams; the witness of the refutation is exactly what it excludes -/
+example :
+    noReplyQueuedForChanged id 4500 {} [.api (.register exX), .api (.query qTxtSrvX), .transmit,
+        .api (.update { exX with port := 81 }), .api (.query qTxtSrvX), .transmit] = true
+    ∧ (RHost.run id 4500 [.api (.register exX), .api (.query qTxtSrvX), .transmit,
+        .api (.update { exX with port := 81 }), .api (.query qTxtSrvX), .transmit]).2.length = 2
+    ∧ noReplyQueuedForChanged id 4500 {} d20Ops = false := by decide
 
 end Zc
